@@ -283,6 +283,16 @@ fn sc_c01(seed: u64, thorough: bool) -> Vec<Scenario> {
             truncations(f, &mut steps);
             length_lies(f, &mut steps);
         }
+        // neighbour solicitations with every option length byte, and truncated option areas
+        for l in 0..=255u8 {
+            let o = node6().octets();
+            let mut body = vec![0u8; 4];
+            body.extend_from_slice(&o);
+            body.extend_from_slice(&[if l % 2 == 0 { 1 } else { 14 }, l]);
+            body.extend_from_slice(&rng.bytes_range(0, 40));
+            let seg = icmp6(135, 0, &body, &peer6(), &node6());
+            steps.push(Step::Frame(eth(&NODE_MAC, &PEER_MAC, ET_IP6, &ipv6(&peer6(), &node6(), P_ICMP6, &seg, 255))));
+        }
         out.push(Scenario {
             name: format!("c01-basics-{}", ci),
             cfg: c.clone(),
